@@ -182,6 +182,10 @@ def run_scenario(sc):
         relabel = None
         if sc['seed'] % 2 == 1:
             relabel = np.random.RandomState(sc['seed']).permutation(K)
+            if sc['seed'] % 4 == 3:
+                # ... or by names that are not 0..K-1 at all (cluster numbers starting at 1, ids with gaps: what
+                # scipy's fcluster or a DBSCAN-style function hands out)
+                relabel = relabel * (7 if sc['seed'] % 8 == 7 else 1) + (3 if sc['seed'] % 8 == 7 else 1)
 
         # one scenario in five clusters on the log scale (a documented option of clustering_gmm)
         ckw = {'scale': 'log'} if sc['seed'] % 5 == 3 else {}
